@@ -158,6 +158,11 @@ func CallGoMethodFunction(env *Zlisp, name string, args []Sexp) (Sexp, error) {
 			case rune:
 				r = append(r, &SexpChar{Val: e})
 			default:
+				// a nil pointer has no struct to hand back
+				if rv := reflect.ValueOf(f); rv.Kind() == reflect.Ptr && rv.IsNil() {
+					r = append(r, SexpNull)
+					continue
+				}
 				// go through the type registry; compare with the type of the value
 				// itself: the declared result type may be an interface
 				dynType := reflect.TypeOf(f)
